@@ -205,6 +205,63 @@ def run(ctx):
                 if not ok:
                     res.find(key, ev.loc(t["sp"]), "evaluate passes %s as argument %d of calculate_infix, expected the node's `%s`" % (sorted(names), idx, want), "`%x - %y` evaluates as y - x")
 
+    # R2b substitute_variables maps a node with sub-expressions to a node of the same kind on every path
+    from qv.engine import fn_expr_rvalue as _rv
+    eadt = db.adts[EXPRESSION]
+    vidx = {v["i"]: v["n"] for v in eadt["variants"]}
+    composite = {"Infix", "Prefix", "FunctionCall"}
+    nret = 0
+    for b_ in range(len(sv.blocks)):
+        for s_ in sv.blocks[b_]["s"]:
+            if not (s_["k"] == "assign" and s_["p"]["l"] == 0 and not s_["p"]["pr"]):
+                continue
+            # which variant of self selects this block?
+            sel = set()
+            for sb, tgt in sv.control_deps(b_):
+                tt = sv.blocks[sb]["t"]
+                if tt["k"] == "switch":
+                    de = fn_expr_operand(sv, tt["d"])
+                    if de[0] == "discr" and de[1][0] == "param" and de[1][1] == 1:
+                        for v_, x in tt["ts"]:
+                            if x == tgt:
+                                sel.add(vidx.get(int(v_)))
+            sel &= composite
+            if len(sel) != 1:
+                continue
+            nret += 1
+            v_ = next(iter(sel))
+            e = _rv(sv, s_["rv"])
+            ok = e[0] == "agg" and e[1] == EXPRESSION and e[2] == v_
+            key = "K5|substitute-keeps-node-kind|%s" % v_
+            res.site(key, True, {"returns": (e[2] if e[0] == "agg" else e[0]), "verdict": "ok" if ok else "VIOLATION"})
+            if not ok:
+                res.find(key, sv.loc(s_["sp"]), "substitute_variables returns %s for a %s node on some path: the operator of the node is dropped or folded" % ((e[2] if e[0] == "agg" else str(e[:2])[:60]), v_), "`+%x` (Prefix Plus) with x := 2 substitutes to the literal -2")
+    res.count("substitute_composite_returns", nret, floor=3)
+    # R2c every value evaluate computes from evaluated children goes through calculate_infix / calculate_function / negation
+    WRAP = ("calculate_infix", "calculate_function", "neg")
+    nok_ = 0
+    for bb, s_ in aggregates(ev):
+        a = s_["rv"]["a"]
+        if not (a["path"] == "std::result::Result" and a["variant"] == "Ok"):
+            continue
+        e = fn_expr_operand(ev, s_["rv"]["ops"][0])
+        if not any(c_[1] == ev.path for c_ in expr_calls(e)):
+            continue  # a leaf value
+        nok_ += 1
+        top = e
+        while top[0] in ("field", "as") or (top[0] == "call" and (top[1].endswith("Try>::branch") or top[1].endswith("::clone"))):
+            top = top[1] if top[0] in ("field", "as") else top[2][0]
+        ok = top[0] == "call" and top[1].rsplit("::", 1)[-1] in WRAP
+        if top[0] == "un" and top[1] == "Neg":
+            ok = True
+        if top[0] == "call" and top[1] == ev.path:
+            ok = True  # the child's value itself (prefix plus)
+        key = "K5|evaluate-combines-through-tables|%s" % (top[1].rsplit("::", 1)[-1] if top[0] == "call" else top[0])
+        res.site(key, True, {"verdict": "ok" if ok else "VIOLATION"})
+        if not ok:
+            res.find(key, ev.loc(s_["sp"]), "evaluate combines the values of sub-expressions with %s instead of calculate_infix / calculate_function: the same expression evaluates differently before and after substitution" % (top[1] if top[0] == "call" else str(top[:2])), "`%b ^ %n` with n := 3e9 bound, versus substituted first")
+    res.count("evaluate_composite_returns", nok_, floor=2)
+
     # ---- R3 tables from syntax
     def table(fn_name):
         fs = [x for x in syn.fns if x["name"] == fn_name and x["module"].endswith("expression")]
